@@ -228,6 +228,12 @@ func (b *Batch) Commit() error {
 	// 完成标识记录占用空间, 但不属于有效数据
 	b.db.totalSize += int64(finPos.Size)
 	b.db.reclaimSize += int64(finPos.Size)
+	// 完成标识记录同样需要持久化, 否则断电后整个批处理丢失
+	if b.options.Sync {
+		if err := b.db.activeFile.Sync(); err != nil {
+			return err
+		}
+	}
 
 	b.staged = nil
 	b.stageIndex = nil
